@@ -106,6 +106,13 @@ class Lib(T):
         self.kind, self.fields = kind, fields
 
 
+class Computed(T):
+    """A value built by fn(it, env) from the ghosts / earlier parameters (e.g. an envelope assembled from ghost parts)."""
+
+    def __init__(self, fn):
+        self.fn = fn
+
+
 class ClsT(T):
     """A reference to a repository class (first argument of a classmethod)."""
 
